@@ -650,6 +650,32 @@ fn cert_order_sweep(report: &Report, tier: Tier) -> Value {
         forge: vec![],
     };
     let mut out = Vec::new();
+    {
+        // slots 2 and 3 are fast-finalized before anything certifies slot 1 (the watermark is stuck
+        // below it) while the Byzantine leader registers further children of the slot-1 block
+        // inside and beyond the finalized run; then slot 1's certificate arrives
+        let alpha2 = NodeAlphabet {
+            foreign: vec![
+                cert(CK::FastFinal, 1, 0, &[1, 2], &[]),
+                cert(CK::FastFinal, 2, 0, &[1, 2], &[]),
+                cert(CK::FastFinal, 3, 0, &[1, 2], &[]),
+                cert(CK::Notar, 1, 0, &[1, 2], &[]),
+            ],
+            blocks: vec![(b(2, 1), b(1, 0)), (b(3, 1), b(1, 0)), (b(4, 1), b(1, 0)), (b(2, 0), b(1, 0)), (b(3, 0), b(2, 0))],
+            invalid: vec![],
+            first_shreds: vec![],
+            windows: vec![0],
+            forge: vec![],
+        };
+        let mut sys = NodeSys::new("children-of-an-uncertified-block-around-a-stuck-watermark", x3.clone(), 0, alpha2, 0);
+        sys.crash_focus = Some("C10");
+        let limits = BfsLimits::new(tier.pick(5, 8), tier.pick(400_000, 20_000_000), tier.pick(15, 200));
+        let st = bfs(&sys, &sys.name, &limits, report);
+        println!("  {}: states={} transitions={} depth_completed={} capped={:?}", sys.name, st.states, st.transitions, st.depth_completed, st.capped);
+        let mut j = st.to_json();
+        j["system"] = json!(sys.name);
+        out.push(j);
+    }
     for lag in tier.pick(vec![0usize], vec![0, 1]) {
         let mut sys = NodeSys::new(&format!("genuine-certificates-in-any-order-lag{lag}"), x3.clone(), 0, alpha.clone(), lag);
         sys.crash_focus = Some("C10");
